@@ -2,7 +2,7 @@
    Only theorem statements closed by `exact`, each followed by Print Assumptions.
    T is any ordered commutative semiring (Z, Q, R); q is the list of squared singular values. *)
 From Coq Require Import List Arith ZArith.
-From TT Require Import RingSig SumN Mat OrdRing RankChop RankChopP FrobP Sweep SweepP.
+From TT Require Import RingSig SumN Mat Core OrdRing RankChop RankChopP FrobP Sweep SweepP ReshapeV SweepBridgeP.
 Import ListNotations.
 
 Section C01.
@@ -78,6 +78,16 @@ Theorem C01_tt_svd_error_bound (leb : R -> R -> bool) {OL : @OrdLaws R (OO_of_ri
   @ole R (OO_of_ring leb) (rmul (@ofnat R (OO_of_ring leb) dm1) (frob2 (sm s0) (sn s0 * sq s0) (msub C (approx ss C))))
       (rmul (@ofnat R (OO_of_ring leb) (length ss)) (rmul eps2 (frob2 (sm s0) (sn s0 * sq s0) C))).
 Proof. exact (tt_svd_error_bound leb dm1 pos eps2 ss qs C s0 st). Qed.
+(* THE RETURNED OBJECT: the TT tensor whose cores are the reshaped kept factors U_k and the final remainder has, entry by entry,
+   the dense value `approx` that the two theorems above compare with the input; it is well formed and its ranks are the chosen ones *)
+Theorem C01_sweep_cores_entry (ss : list (stage R)) n1 C i idx :
+  stages_ok ss -> last_q1 ss -> Forall2 lt idx (map (@sn R) ss) ->
+  entry (sweep_cores 1 n1 ss C) (i :: idx) = approx ss C i (flat_pos (map (@sn R) ss) idx).
+Proof. exact (sweep_cores_entry ss n1 C i idx). Qed.
+Theorem C01_sweep_cores_wf (ss : list (stage R)) n1 C :
+  wf (sweep_cores 1 n1 ss C) /\ shape (sweep_cores 1 n1 ss C) = n1 :: map (@sn R) ss /\
+  map (@r1 R) (sweep_cores 1 n1 ss C) = map (@sr R) ss ++ [1%nat].
+Proof. exact (conj (sweep_cores_wf ss n1 C) (conj (sweep_cores_shape ss 1%nat n1 C) (sweep_cores_ranks ss 1%nat n1 C))). Qed.
 End C01_sweep.
 
 Print Assumptions C01_rank_chop_range.
@@ -90,3 +100,5 @@ Print Assumptions C01_pinned_tie_refuted.
 Print Assumptions C01_stage_error.
 Print Assumptions C01_sweep_error_eq.
 Print Assumptions C01_tt_svd_error_bound.
+Print Assumptions C01_sweep_cores_entry.
+Print Assumptions C01_sweep_cores_wf.
